@@ -19,6 +19,14 @@ fault); TCP: the faulty connection's server-side socket ends closed and on_disco
 completed; UDP: a later datagram from the faulty address is answered by a generator started after the fault (for an
 always-failing client: starts a generator); a client never has more generators than datagrams that reached the server (a
 datagram whose generator ended before its first yield is discarded, not replayed); once no datagram arrives the loop goes idle.
+
+UDP queue / re-spawn harness (``udp-respawn``): the faulty client's first generator is parked on a gate while more datagrams
+of the same address are queued behind it, then returns or raises; the re-spawned generators answer / raise before their
+first yield / raise on receiving the request without a checkpoint / return before their first yield; further datagrams of
+the same address are delivered aligned (same loop iteration, +-1) with the release; the loop's task factory is the default
+one or ``asyncio.eager_task_factory`` (SimTask instances started eagerly).  Oracle: serve_forever still running; every
+datagram of the faulty client that reached the server started its own generator, those whose generator answers are
+answered; a later datagram is answered by a fresh generator; healthy clients and a new address are served; idle afterwards.
 """
 from __future__ import annotations
 
@@ -46,7 +54,7 @@ from easynetwork.servers.handlers import AsyncDatagramRequestHandler, AsyncStrea
 
 from vsim.backend import SimAsyncIOBackend, sim_sockets
 from vsim.harness import Peer
-from vsim.loop import loop_goes_idle, run_async, wait_until
+from vsim.loop import SimTask, loop_goes_idle, run_async, wait_until
 from vsim.runner import Harness
 from vsim.sock import Delivery, SimNet, SimSocket
 from vsim.tls import TLSPeer, make_context
@@ -69,7 +77,14 @@ RULE = (
     "garbage instead of a ClientHello, stalled handshake -> handshake timeout, FIN or RST after k bytes of the client's handshake "
     "(k in record header / ClientHello / its end / second flight / exact end / application data) ; UDP 'handle before first yield' comes in three strengths: once, for every generator started during the client's "
     "script, always (the client's handler never reaches its first yield)} x handle-generator length "
-    "{1,2,3,unbounded} x protocol {copy, buffered} x link fragmentation/delay; a third of the runs have no handler/set-up fault"
+    "{1,2,3,unbounded} x protocol {copy, buffered} x link fragmentation/delay; a third of the runs have no handler/set-up fault; "
+    "UDP queue/re-spawn harness: loop task factory {default, asyncio.eager_task_factory} x first generator of the faulty address parked "
+    "{before its first yield, after receiving the request} on a gate with 0-3 datagrams of the same address queued behind it, released "
+    "0-2 loop iterations after a loop timer, ending by {answer+return, return, raise, raise after answering} x exception class x "
+    "each re-spawned generator in {answers, raises before its first yield, raises on receiving the request without any checkpoint, "
+    "returns before its first yield} x 0-2 more datagrams of the same address delivered at the timer's instant or from a loop callback "
+    "0-2 iterations after it (covers a datagram handled between the end of a client's task and the first step of the re-spawned one, "
+    "and nested re-spawns under eager tasks)"
 )
 COMPONENTS_REAL = [
     "easynetwork.servers.async_tcp / async_udp / misc / _base",
@@ -83,6 +98,7 @@ COMPONENTS_STUB = ["SimSocket/SimNet/SimSelector/virtual clock", "faulty client 
 ASSUMPTIONS = [
     "a reset right after accept is modelled as getpeername()->ENOTCONN (Linux) or setsockopt()->ENOTCONN/EINVAL/ECONNRESET (BSD/macOS) on the accepted socket, or as ECONNRESET on the first recv",
     "service_init faults are excluded (server-wide by documentation)",
+    "udp-respawn: eager task factory = asyncio.create_eager_task_factory(SimTask) installed on the running loop before the server is created (the main task itself is not eager)",
 ]
 BUDGET = {"quick": 40, "thorough": 480}
 
@@ -1052,8 +1068,335 @@ def _h_udp(world: World) -> None:
         _freeze(world)
 
 
+# ====================================================================================================== UDP: queue / re-spawn
+# One address, one generator at a time: datagrams that arrive while the client's generator runs are queued, and when the
+# generator ends (returns or FAILS) with datagrams still queued the low-level server re-spawns a task for the address.
+# This harness aims at that state machine: the first generator of the faulty client is parked on a gate while 0-3 more
+# datagrams of the same address get queued; the gate is released j loop iterations after a loop timer fired; the generator
+# then returns or raises; each re-spawned generator follows a drawn behaviour (answer | raise before its first yield |
+# raise on receiving the request, without any checkpoint | return before its first yield); 0-2 more datagrams of the same
+# address are delivered aligned with the release (world event at the timer's time, or from a loop callback 0-2 iterations
+# after the timer), which covers "a datagram is handled in the very loop iteration between the end of the old task and
+# the first step of the re-spawned one"; configuration dimension: the loop's task factory is the default one or
+# ``asyncio.eager_task_factory`` (a re-spawned task then runs nested inside the frame that ended the previous one).
+RESPAWN_BEHAVIOURS = ("answer", "raise_pre", "raise_req", "return_pre")
+
+
+class RespawnHandler(AsyncDatagramRequestHandler[str, str]):
+    """every generator handles exactly ONE datagram (or discards it by ending before its first yield)"""
+
+    def __init__(self, world: World, faulty: tuple, spec: dict):
+        self.world = world
+        self.faulty = faulty
+        self.spec = spec
+        self.gate: asyncio.Future | None = None
+        self.gens = 0  # generators started for the faulty address
+        self.raised = 0
+        self.scripted = True  # False once the scripted phase is over: every later generator answers
+        self.served: list[tuple[str, int]] = []
+        self.on_gen_start: Callable[[int], None] | None = None
+
+    def _raise(self, where: str) -> None:
+        self.raised += 1
+        self.world.fault("handler_raises")
+        self.world.probe("respawn.raise@" + where)
+        self.world.log("raise", "bad", where, self.spec["exc"])
+        raise _make_exc(self.spec["exc"], None, True)
+
+    async def handle(self, client: Any) -> Any:
+        addr = client.extra(INETClientAttribute.remote_address)
+        if (addr.host, addr.port) != self.faulty:
+            req = yield
+            await client.send_packet("R:" + req)
+            return
+        self.gens += 1
+        k = self.gens
+        if self.on_gen_start is not None:
+            self.on_gen_start(k)
+        spec = self.spec
+        if k == 1 and spec["park"]:
+            assert self.gate is not None
+            if spec["gate_pos"] == "pre":
+                await self.gate
+                if spec["end1"] == "return":
+                    return
+                self._raise("gen1_pre")
+            req = yield
+            await self.gate
+            if spec["end1"] == "raise":
+                self._raise("gen1_req")
+            await client.send_packet("R:" + req)
+            self.served.append((req, k))
+            if spec["end1"] == "raise_after_answer":
+                self._raise("gen1_answered")
+            return
+        script = spec["script"]
+        how = script[k - 2] if self.scripted and 0 <= k - 2 < len(script) else "answer"
+        if how == "raise_pre":
+            self._raise("respawned_pre")
+        if how == "return_pre":
+            self.world.probe("respawn.return_pre")
+            return
+        req = yield
+        if how == "raise_req":
+            self._raise("respawned_req")
+        await client.send_packet("R:" + req)
+        self.served.append((req, k))
+
+
+def _h_udp_respawn(world: World) -> None:
+    family = "udp-respawn"
+    net = SimNet(world)
+    backend = SimAsyncIOBackend(net)
+    eager = bool(world.choose("loop.eager", 2))  # configuration: asyncio.eager_task_factory on the server's loop
+    healthy = _draw_healthy(world)
+    any_fault = world.chance("any_fault", 2, 3)  # a third of the runs: nothing raises, nothing is aligned
+    spec: dict[str, Any] = {
+        "park": True,
+        "start": world.choose("f.start", 24),
+        "gap": 1 + world.choose("f.gap", 4),
+        "queued": world.choose("f.queued", 4),  # datagrams of the same address queued behind the parked generator
+        "gate_pos": "req",
+        "end1": "answer",
+        "exc": "ValueError",
+        "script": ["answer"] * 5,
+        "release_stage": 0,
+        "late": [],
+    }
+    if any_fault:
+        spec["gate_pos"] = "pre" if world.choose("f.gate_pos", 3) == 2 else "req"
+        spec["end1"] = ("answer", "raise", "raise_after_answer", "raise")[world.choose("f.end1", 4)]
+        if spec["gate_pos"] == "pre":
+            spec["end1"] = "return" if spec["end1"] == "answer" else "raise"
+        spec["exc"] = EXC_KINDS[world.choose("f.exc", len(EXC_KINDS))]
+        spec["script"] = [RESPAWN_BEHAVIOURS[world.choose("f.behaviour", len(RESPAWN_BEHAVIOURS))] for _ in range(5)]
+        spec["release_stage"] = world.choose("f.release_stage", 3)
+        # late datagrams: 0 = delivered by a world event at the very time of the release timer, k>0 = sent from a loop
+        # callback k-1 iterations after the timer callback
+        spec["late"] = [world.choose("f.late_stage", 4) for _ in range(world.choose("f.nlate", 3))]
+    world.notes.update(variant=family, eager=eager, healthy=healthy, spec=dict(spec))  # type: ignore[attr-defined]
+    if eager:
+        world.probe("loop_eager_task_factory")
+    loopkind = "eager" if eager else "default"
+    site = f"{loopkind}-loop"  # structural site: the loop configuration (the clause names what broke)
+
+    proto = DatagramProtocol(StringLineSerializer(encoding="ascii"))
+    addr_of = {h["name"]: ("10.9.0.1", 7000 + i) for i, h in enumerate(healthy)}
+    addr_of["probe"] = ("10.9.0.1", 7099)
+    addr_of["bad"] = ("10.9.1.1", 7100)
+    handler = RespawnHandler(world, addr_of["bad"], spec)
+    logger = _ProbeLogger(world)
+    name_of = {v: k for k, v in addr_of.items()}
+    inbox: dict[str, list[bytes]] = {n: [] for n in addr_of}
+    answers: dict[str, list[bytes]] = {n: [] for n in addr_of}  # everything the server ever sent, per client
+    waiters: dict[str, asyncio.Future] = {}
+    failures: list[Violation] = []
+    delivered: dict[str, int] = {n: 0 for n in addr_of}
+    sent_reqs: list[str] = []  # requests of the faulty client, in delivery order
+
+    def policy(src: SimSocket, dst: tuple, data: bytes) -> list:
+        name = name_of.get(tuple(dst[:2]))
+        if name is None:
+            raise HarnessError(f"server sent a datagram to unknown address {dst}")
+        inbox[name].append(data)
+        answers[name].append(data)
+        world.log("dgram_out", name, len(data))
+        w = waiters.pop(name, None)
+        if w is not None and not w.done():
+            w.set_result(None)
+        return []
+
+    net.dgram_policy = policy
+
+    def send(name: str, data: bytes) -> None:
+        delivered[name] += 1
+        world.log("dgram_in", name, len(data))
+        net.inject_dgram(net.bound[(HOST, PORT)], data, addr_of[name])
+
+    def send_bad(req: str) -> None:
+        sent_reqs.append(req)
+        send("bad", proto.make_datagram(req))
+
+    def on_gen_start(k: int) -> None:
+        if k > delivered["bad"] and world.fatal is None:
+            world.fatal = _viol(family, "one-generator-per-datagram", f"bad: generator #{k} started although only {delivered['bad']} datagram(s) from {addr_of['bad']} reached the server; t={world.now} spec={spec}", site)
+
+    handler.on_gen_start = on_gen_start
+
+    async def recv(name: str) -> bytes:
+        while not inbox[name]:
+            fut = asyncio.get_running_loop().create_future()
+            waiters[name] = fut
+            await fut
+        return inbox[name].pop(0)
+
+    async def exchange(name: str, req: str) -> str | None:
+        world.log("req", name, req)
+        send(name, proto.make_datagram(req))
+        try:
+            async with asyncio.timeout(WAIT):
+                got = await recv(name)
+        except TimeoutError:
+            return f"{name}: request {req!r} not answered within {WAIT}s (t={world.now})"
+        world.log("resp", name, len(got))
+        if got != proto.make_datagram("R:" + req):
+            return f"{name}: request {req!r} answered {got!r}"
+        world.progress(1)
+        return None
+
+    async def healthy_client(h: dict, faults_over: asyncio.Event, t0: float) -> None:
+        name = h["name"]
+        await asyncio.sleep(max(0.0, t0 + h["start"] * U - world.now))
+        reqs = [f"{name}-{k}" for k in range(len(h["gaps"]))]
+        for k, req in enumerate(reqs + [f"{name}-after"]):
+            if k == len(reqs):
+                await faults_over.wait()
+            else:
+                await asyncio.sleep(h["gaps"][k] * U)
+            err = await exchange(name, req)
+            if err is not None:
+                failures.append(_viol(family, "healthy-client-served", err, site))
+                return
+
+    def run_faulty(loop: asyncio.AbstractEventLoop, t0: float) -> float:
+        """schedules the faulty client's script; returns the virtual time of the release timer"""
+        gap = spec["gap"] * U
+        t = t0 + spec["start"] * U
+        world.at(t, lambda: send_bad("bad-0"))
+        for q in range(spec["queued"]):
+            t += gap
+            world.at(t, lambda q=q: send_bad(f"bad-q{q}"))  # type: ignore[misc]
+        t_release = t + gap
+        late: list[int] = spec["late"]
+        last_stage = max([spec["release_stage"]] + [s - 1 for s in late])
+
+        def stage(k: int) -> None:
+            # runs as a loop callback, k iterations after the timer callback
+            for n, s in enumerate(late):
+                if s - 1 == k:
+                    world.fault("coincide_timer")
+                    if k == spec["release_stage"] - 1:
+                        # read in the iteration in which the gate opens: its task runs right after the old generator's last step
+                        world.probe("respawn.dgram_between_task_end_and_respawn")
+                    send_bad(f"bad-late{n}")
+            if k == spec["release_stage"]:
+                world.log("release", "bad", k)
+                assert handler.gate is not None
+                if not handler.gate.done():
+                    handler.gate.set_result(None)
+            if k < last_stage:
+                loop.call_soon(stage, k + 1)
+
+        def at_timer_time() -> None:
+            for n, s in enumerate(late):
+                if s == 0:
+                    send_bad(f"bad-late{n}")
+
+        world.at(t_release, at_timer_time)  # world event: visible to the select() call that also finds the timer due
+        loop.call_at(t_release, stage, 0)
+        return t_release
+
+    def expected_answers() -> list[bytes]:
+        out = []
+        for k, req in enumerate(sent_reqs, start=1):
+            if k == 1:
+                ok = spec["gate_pos"] == "req" and spec["end1"] in ("answer", "raise_after_answer")
+            else:
+                ok = (spec["script"][k - 2] if k - 2 < len(spec["script"]) else "answer") == "answer"
+            if ok:
+                out.append(proto.make_datagram("R:" + req))
+        return out
+
+    async def amain() -> None:
+        loop = asyncio.get_running_loop()
+        if eager:
+            # still SimTask instances (creation-index hashes), started eagerly
+            loop.set_task_factory(asyncio.create_eager_task_factory(SimTask))
+        handler.gate = loop.create_future()
+        async with AsyncUDPNetworkServer(HOST, PORT, proto, handler, backend, logger=logger) as srv:
+            up = asyncio.Event()
+            server_task = loop.create_task(srv.serve_forever(is_up_event=up), name="serve_forever")
+
+            def stopped() -> str:
+                exc = None if server_task.cancelled() else server_task.exception()
+                subs = getattr(exc, "exceptions", None)
+                what = "; ".join(f"{type(e).__name__}: {str(e)[:100].split(' <')[0]}" for e in subs) if subs else f"{type(exc).__name__}: {exc}"
+                return f"serve_forever ended ({what}) at/before t={world.now}; eager={eager} spec={spec} generators started for the faulty client={handler.gens} delivered={delivered['bad']}"
+
+            try:
+                await asyncio.wait([loop.create_task(up.wait(), name="up-wait"), server_task], return_when=asyncio.FIRST_COMPLETED)
+                if server_task.done():
+                    raise HarnessError(f"serve_forever ended during start-up: {server_task.exception()!r}")
+                t0 = world.now + U
+                faults_over = asyncio.Event()
+                htasks = [loop.create_task(healthy_client(h, faults_over, t0), name=h["name"]) for h in healthy]
+                t_release = run_faulty(loop, t0)
+                await asyncio.sleep(max(0.0, t_release - world.now) + 0.5)
+                if not handler.gate.done():
+                    raise HarnessError("the release chain did not run")
+                # ---- the server survived the end of the parked generator and of everything re-spawned after it
+                if server_task.done():
+                    raise _viol(family, "server-still-running", stopped(), site)
+                # ---- every datagram queued behind / delivered around the failing generator started a fresh one
+                if not await wait_until(world, lambda: handler.gens >= delivered["bad"] or server_task.done(), max_time=WAIT, step=U) or server_task.done():
+                    if server_task.done():
+                        raise _viol(family, "server-still-running", stopped(), site)
+                    raise _viol(family, "queued-datagram-starts-fresh-generator", f"{delivered['bad']} datagrams of the faulty client reached the server ({sent_reqs}), only {handler.gens} generator(s) were started within {WAIT}s after the first one ended; eager={eager} spec={spec}", site)
+                if handler.gens > 1:
+                    world.probe("respawn.generators_after_first", handler.gens - 1)
+                await asyncio.sleep(0.25)
+                if sorted(answers["bad"]) != sorted(expected_answers()) and world.fatal is None and not server_task.done():
+                    raise _viol(family, "queued-datagram-answered-by-its-generator", f"faulty client sent {sent_reqs}; answers received {answers['bad']}, expected {expected_answers()} (each generator handles one datagram); eager={eager} spec={spec}", site)
+                world.progress(len(answers["bad"]))
+                # ---- a later datagram from the faulty address starts a fresh generator and is answered
+                inbox["bad"].clear()
+                handler.scripted = False
+                gens_before = handler.gens
+                err = await exchange("bad", "bad-again")
+                if err is not None:
+                    if server_task.done():
+                        raise _viol(family, "server-still-running", stopped(), site)
+                    raise _viol(family, "faulty-address-answered-after-fault", f"{err}; eager={eager} spec={spec}", site)
+                gen = [g for r, g in handler.served if r == "bad-again"][-1]
+                if gen <= gens_before:
+                    raise _viol(family, "faulty-address-fresh-generator", f"'bad-again' was handled by generator #{gen}, {gens_before} generators had been started before it was sent; spec={spec}", site)
+                world.probe("fresh_generator_after_fault")
+                faults_over.set()
+                if htasks:
+                    await asyncio.wait(htasks)
+                for t in htasks:
+                    if t.exception() is not None:
+                        raise t.exception()  # type: ignore[misc]
+                if failures:
+                    raise failures[0]
+                probe = loop.create_task(healthy_client({"name": "probe", "start": 0, "gaps": [0]}, faults_over, world.now), name="probe")
+                await asyncio.wait([probe])
+                if probe.exception() is not None:
+                    raise probe.exception()  # type: ignore[misc]
+                if failures:
+                    raise failures[0]
+                if server_task.done() or not srv.is_serving():
+                    raise _viol(family, "server-still-running", f"serve_forever done={server_task.done()} is_serving={srv.is_serving()}; eager={eager} spec={spec}", site)
+                if world.fatal is None and not await loop_goes_idle(world, loop):
+                    raise _viol(family, "idle-server-does-not-spin", f"more than 200 loop iterations during 50 idle virtual seconds; eager={eager} spec={spec} generators={handler.gens} delivered={delivered}", site)
+            finally:
+                if not handler.gate.done():
+                    handler.gate.set_result(None)
+                await srv.shutdown()
+                if not server_task.done():
+                    server_task.cancel()
+                await asyncio.wait([server_task])
+
+    try:
+        with sim_sockets(net):
+            run_async(world, amain, det_tasks=True)
+    finally:
+        _freeze(world)
+
+
 HARNESSES = [
     Harness("tcp", lambda w: _h_tcp(w, "tcp"), weight=2),
     Harness("tls", lambda w: _h_tcp(w, "tls"), weight=2),
     Harness("udp", _h_udp, weight=1),
+    Harness("udp-respawn", _h_udp_respawn, weight=1),
 ]
